@@ -292,3 +292,93 @@ func VerifC11Saturated() {
 	}
 	vstub.Assert(len(a.Replicator().GetQueue()) == 0, "C11 nothing is left queued once the later request completed")
 }
+
+// VerifC11LoadAbort: LOADING FROM DISK is aborted part-way.  A restarted store
+// has two cached heads (its own chain and a replicated concurrent chain); the
+// first Load is cancelled at its k-th block read, or the block of one head (or of
+// an ancestor) cannot be read; a later Load with a live context and every block
+// readable makes all reachable entries visible - on the same store and on a
+// store reopened from the same directory.
+func VerifC11LoadAbort() {
+	n := vstub.Param("N", 2)
+	blocks := vstub.NewBlocks(nil)
+	a, envA := openWith("a", blocks, nil, nil)
+	b, _ := openWith("b", blocks, nil, nil)
+	if a == nil || b == nil {
+		return
+	}
+	ctx := context.Background()
+	addN(a, n, 'a')
+	addN(b, n, 'b')
+	if err := a.Sync(ctx, b.OpLog().Heads().Slice()); err != nil {
+		vstub.Fail("C11 Sync failed")
+		return
+	}
+	vstub.WaitIdle()
+	all := a.OpLog().Values().Slice()
+	if len(all) != 2*n {
+		vstub.Fail("C11 harness: replication did not complete")
+		return
+	}
+	_ = a.Close()
+	vstub.WaitIdle()
+	r, _ := openWith("a", blocks, envA.Cache, nil)
+	if r == nil {
+		return
+	}
+	ctx1, cancel1 := context.WithCancel(ctx)
+	failHash := ""
+	switch vstub.NdChoice("fault", 2) {
+	case 0:
+		at := 1 + vstub.NdChoice("at", 2*n)
+		blocks.OnRead = func(k int, hash string) {
+			if k == at {
+				cancel1()
+			}
+		}
+		vstub.Cover("load-cancelled")
+	case 1:
+		failHash = vstub.BlockKey(all[vstub.NdChoice("failWhich", len(all))].GetHash())
+		blocks.Missing[failHash] = true
+		vstub.Cover("load-fetch-failed")
+	}
+	_ = r.Load(ctx1, -1) // may report an error
+	vstub.WaitIdle()
+	cancel1()
+	vstub.WaitIdle()
+	blocks.OnRead = nil
+	if failHash != "" {
+		delete(blocks.Missing, failHash)
+	}
+	vstub.Cover("aborted")
+	for _, e := range r.OpLog().Values().Slice() {
+		for _, nx := range e.GetNext() {
+			if _, ok := r.OpLog().Get(nx); !ok {
+				vstub.Cover("partial-ancestry")
+				if vstub.KnownFinding("C11-partial-ancestry") {
+					return
+				}
+			}
+		}
+	}
+	target := r
+	if vstub.NdChoice("later-on", 2) == 1 {
+		_ = r.Close()
+		vstub.WaitIdle()
+		target, _ = openWith("a", blocks, envA.Cache, nil)
+		if target == nil {
+			return
+		}
+		vstub.Cover("reopened")
+	}
+	if err := target.Load(ctx, -1); err != nil {
+		vstub.Fail("C11 the later Load returned an error")
+		return
+	}
+	vstub.WaitIdle()
+	vstub.Cover("retried")
+	for _, e := range all {
+		vstub.Assert(inLog(target, e), "C11 after a load aborted part-way a later load makes every reachable entry visible")
+		vstub.Assert(inView(target, e), "C11 after a load aborted part-way a later load shows every reachable entry in the view")
+	}
+}
